@@ -257,14 +257,21 @@ Inductive gnode :=
 | GLambda (uid : ukey) (key : N) (inf : info) (natives : N) (fails : bool)
 | GPass (uid : ukey) (key : N)
 | GSub (uid : ukey) (key : N) (inf : info) (stages : list (list gnode))
-| GTools (uid : ukey) (key : N) (inf : info) (calls : list (ukey * info * N * bool)).
+| GTools (uid : ukey) (key : N) (inf : info) (calls : list (ukey * info * N * bool))
     (* a ToolsNode and the tool calls of its input message: per call its unit, the run info
        of the tool, the paradigms the tool implements (bit 0 InvokableRun, 1 StreamableRun)
        and whether the call fails *)
+| GStop.
+    (* a configured interrupt point (compile options WithInterruptBeforeNodes /
+       WithInterruptAfterNodes) the run arrives at: a stage of its own between the stage that has
+       completed and the one that would start (runner.run: handleInterrupt after calculateNextTasks).
+       Nothing executes, no context is created, no handler is invoked for it: the enclosing graph
+       ends with an error (the interrupt).  It is no node: no call option can address it. *)
 
 Definition gnode_key (n : gnode) : N :=
-  match n with GLambda _ k _ _ _ => k | GPass _ k => k | GSub _ k _ _ => k | GTools _ k _ _ => k end.
+  match n with GLambda _ k _ _ _ => k | GPass _ k => k | GSub _ k _ _ => k | GTools _ k _ _ => k | GStop => 0%N end.
 Definition gnode_is_sub (n : gnode) : bool := match n with GSub _ _ _ _ => true | _ => false end.
+Definition gnode_is_node (n : gnode) : bool := match n with GStop => false | _ => true end.
 
 (* newRunnablePacker: the native paradigm behind r.i (invoke mode) and r.t (transform mode):
    0 Invoke, 1 Stream, 2 Collect, 3 Transform *)
@@ -302,7 +309,7 @@ Definition opts_ok (nodes : list gnode) (opts : list copt) : bool :=
     forallb (fun p => match p with
                       | [] => false
                       | k :: tl =>
-                          match find (fun n => N.eqb (gnode_key n) k) nodes with
+                          match find (fun n => gnode_is_node n && N.eqb (gnode_key n) k) nodes with
                           | None => false
                           | Some n => match tl with [] => true | _ => gnode_is_sub n end
                           end
@@ -375,6 +382,7 @@ Fixpoint node_ops (is_stream : bool) (parent : ukey) (opts : list copt) (n : gno
       (OAppend (Some parent) uid inf (designated key opts) :: OOn uid (start_timing_of p) ::
        flat_map (call_ops is_stream uid) calls ++
        [OOn uid (if failed then TError else end_timing_of p)], failed)
+  | GStop => ([], true)
   end.
 
 (* a compiled top-level graph called with [opts] on a context without manager *)
